@@ -274,6 +274,16 @@ def run_oracle(ctx, scenario, crit, req, o):
         grad_true = p.grad_psi(x, y, S)
         gradh_true = p.grad_psi(xh, y, S)
         scale = 1 + sl.norm_inf(grad_true) + sl.norm_inf(gradh_true) + sl.norm_inf(x) / gamma
+        # the final iterate data must belong together: x_hat is the projected-gradient step of the reported x with the reported gamma
+        # (a step size changed after x_hat was computed makes every gamma-dependent criterion describe a different point)
+        if (req.solver in ("panoc", "zerofpr", "pantr") and not getattr(p, "l1", None) and gamma > 0 and math.isfinite(gamma)
+                and all(math.isfinite(t) for t in grad_true + x + xh)):
+            for i in range(len(x)):
+                e = min(max(x[i] - gamma * grad_true[i], p.Clb[i]), p.Cub[i])
+                if not sl.close(xh[i], e, 1e-8, 1e-8 * (1 + abs(x[i]) + gamma * sl.norm_inf(grad_true))):
+                    bad.append(("C06:final-xhat-not-the-step-of-reported-x-and-gamma:%s" % req.solver,
+                                "final record: x_hat[%d]=%r but the projected-gradient step of the reported x with the reported gamma=%r gives %r" % (i, xh[i], gamma, e)))
+                    break
         if all(math.isfinite(t) for t in grad_true + gradh_true + x + xh):
             e_doc = doc_eps(crit, p.Clb, p.Cub, gamma, x, xh, yh, grad_true, gradh_true)
             if not sl.close(e_doc, eps, 1e-7, 1e-9 * scale):
